@@ -91,7 +91,9 @@ def sched_for_rt(P, sched):
 
 
 def prog_key(P):
-    return json.dumps(P, sort_keys=True)
+    """identity of the compiled function: the name of the calling thread is run-time data, so runs of one program under
+    differently named callers execute the SAME expansion in one process (generated statics / caches are shared)"""
+    return json.dumps({k: v for k, v in P.items() if k != "caller"}, sort_keys=True)
 
 
 def build_and_run(pid, runs, verdict, ncrates=16, grace_ms=0, extra_run_fields=None, tag="ws", bounds=False):
